@@ -2005,6 +2005,10 @@ class Affine:
             if self.model is not z.model:
                 raise ValueError('Models mismatch.')
 
+        for term in (x, z):
+            if not isinstance(term, (Vars, VarSub, Affine, Real, np.ndarray)):
+                raise TypeError('Unsupported term of an exponential cone.')
+
         return ExpConstr(self.model, x, self, z)
 
     def exp(self):
@@ -4302,6 +4306,10 @@ class DecAffine(Affine):
                 raise ValueError('Models mismatch.')
         if isinstance(z, (DecVar, DecVarSub, DecAffine)):
             event_adapt = comb_set(event_adapt, z.event_adapt)
+
+        for term in (x, z):
+            if not isinstance(term, (Vars, VarSub, Affine, Real, np.ndarray)):
+                raise TypeError('Unsupported term of an exponential cone.')
 
         return DecExpConstr(ExpConstr(self.model, x, self, z), event_adapt)
 
